@@ -192,9 +192,9 @@ def fault_steps(prog, sched, level):
     return steps, sum(len(f) for f in faults)
 
 
-def c07(work, tier, seed, replay):
+def fault_pipeline(work, rep, tier, seed, prop):
+    """TLC-listed fault placements over the update histories, executed at interface and driver level, judged for `prop`"""
     import seqfam
-    rep = Report("C07", tier, seed, "fault_enumeration")
     build_driver()
     progs = scenario_programs(work)
     maxf = 1 if tier == "quick" else 2
@@ -227,9 +227,17 @@ def c07(work, tier, seed, replay):
         rep.notes.append("%s/%s: %s" % (store, lv, o.strip()))
         events = read_ndjson(tp)
         fails = seqfam.judge(work, rep, jc, tp, name="judge-%s-%s" % (store, lv))
-        seqfam.settle(rep, "C07", fails, events, jc, extra_replay={"store": store, "level": lv})
+        seqfam.settle(rep, prop, fails, events, jc, extra_replay={"store": store, "level": lv})
         all_events += events
         rep.cov["traces_validated_against_impl"] += len(runs)
+    rep.cov["fault_placements_with_a_failure"] = nplace
+    return all_events, maxf
+
+
+def c07(work, tier, seed, replay):
+    rep = Report("C07", tier, seed, "fault_enumeration")
+    all_events, maxf = fault_pipeline(work, rep, tier, seed, "C07")
+    nplace = rep.cov["fault_placements_with_a_failure"]
     ups = [e for e in all_events if e.get("e") == "update"]
     fired = [e for e in ups if e.get("fired")]
     rep.cov["evaluations"] = len(ups)
